@@ -74,6 +74,31 @@ def cancellation_case(rng, pipes=None):
     return c
 
 
+TIME_WIN = [p for p in c12.PIPE_IDS if c12.PIPES[p]["group"] == "window-time" or p.startswith("wgt")]
+
+
+def late_case(rng):
+    """time windows fed with LATE batches (rows older than rows that arrived before them, some still inside the window,
+    some already outside).  Oracle only: resumed run == uninterrupted run at every cut."""
+    nb = rng.randint(3, 6)
+    sizes = [rng.choice([1, 1, 2, 3]) for _ in range(nb)]
+    rows = [[rng.randint(0, 6), rng.randint(-3, 3), rng.choice([1, 1, 2, 3])] for _ in range(sum(sizes))]
+    boff = [0] * nb
+    for b in range(1, nb):
+        if rng.random() < 0.45:
+            boff[b] = -rng.choice([1, 2, 3, 4, 6])
+        elif rng.random() < 0.3:
+            boff[b] = rng.choice([1, 2, 5])
+    pos = 0
+    for b in range(nb):         # no negative stamps
+        boff[b] = max(boff[b], -pos)
+        pos += sizes[b]
+    c = mk(rng.choice(TIME_WIN), rows, sizes)
+    c["boff"] = boff
+    c["nocoq"] = True
+    return c
+
+
 def gen_cases(tier, rng):
     T = ci.TABLES
     thorough = tier == "thorough"
@@ -95,6 +120,9 @@ def gen_cases(tier, rng):
         cases.append(random_case(rng))
     for _ in range(150 if not thorough else 2000):
         cases.append(cancellation_case(rng))
+    if TIME_WIN:
+        for _ in range(200 if not thorough else 3000):
+            cases.append(late_case(rng))
     return cases
 
 
